@@ -662,7 +662,10 @@ func TestC17(t *testing.T) {
 	})
 }
 
-var transitionZones = []string{"America/New_York", "Australia/Sydney", "Europe/London", "Pacific/Auckland", "Pacific/Apia", "Australia/Lord_Howe", "America/St_Johns", "Asia/Tehran"}
+// (Havana, Beirut, Asuncion, Santiago and Sao Paulo change their offset at local midnight, so that a *date* of
+// the zone lies next to the change)
+var transitionZones = []string{"America/New_York", "Australia/Sydney", "Europe/London", "Pacific/Auckland", "Pacific/Apia", "Australia/Lord_Howe", "America/St_Johns", "Asia/Tehran",
+	"America/Havana", "Asia/Beirut", "America/Asuncion", "America/Santiago", "America/Sao_Paulo"}
 
 var (
 	transitionsMu    sync.Mutex
@@ -705,11 +708,13 @@ func zoneTransitions(zone string) []time.Time {
 func genNearTransition(rt *rapid.T, zone, l string) string {
 	ts := zoneTransitions(zone)
 	at := ts[rapid.IntRange(0, len(ts)-1).Draw(rt, l+"ti")]
-	at = at.Add(time.Duration(rapid.IntRange(-2, 1).Draw(rt, l+"ds")) * time.Second)
+	at = at.Add(time.Duration(rapid.SampledFrom([]int{-2, -1, 0, 1, -2, -1, 0, 1, -1800, 1800, -3599, 3599, -3600, 3600, -7200, 900}).Draw(rt, l+"ds")) * time.Second)
 	frac := rapid.SampledFrom([]string{"", ".5", ".7", ".96", ".4999996", ".9999996", ".04", ".999", ".0000004"}).Draw(rt, l+"frac")
 	sep := rapid.SampledFrom([]string{"T", " "}).Draw(rt, l+"sep")
 	loc, _ := time.LoadLocation(zone)
-	switch rapid.IntRange(0, 3).Draw(rt, l+"as") {
+	switch rapid.IntRange(0, 4).Draw(rt, l+"as") {
+	case 4: // the date of that day in the zone (or the next)
+		return at.In(loc).AddDate(0, 0, rapid.IntRange(0, 1).Draw(rt, l+"dd")).Format("2006-01-02")
 	case 0: // local time of the zone, without an offset
 		return at.In(loc).Format("2006-01-02"+sep+"15:04:05") + frac
 	case 1: // the instant, in UTC
